@@ -243,11 +243,20 @@ PROPS["C14"] = dict(
 )
 
 PROPS["C19"] = dict(
-    technique="Coq theorems over an executable discrete-event model of both DTLCP endpoints, the retransmission timers and the faulty network (Model/DSim.v) + exact trace correspondence: the real endpoints run on the deterministic virtual-time network under every enumerated fault script and must produce, event for event (datagrams with epoch / sequence number / kind of every record, network actions, deadline expiries, completion, application data, all with their virtual time), the trace the model computes",
-    level_text="(in progress)",
-    level_note="(in progress)",
+    technique="Coq theorems over an executable discrete-event model of both DTLCP endpoints, the retransmission timers, the faulty virtual-time network and a ping/pong application (Model/DSim.v): liveness for every pattern of at most 2 (resp. 3) faults by reduction lemmas (faults on datagrams that are never sent and the unused delay field do not matter) + complete enumeration by vm_compute, safety invariants by induction for every script of any length + exact trace correspondence: the real endpoints run on the deterministic virtual-time network under enumerated fault scripts and must produce, event for event (every datagram with epoch / sequence number / kind / message_seq of each record, every network action, every deadline expiry, completion, application data, each with its virtual time), the trace the model computes",
+    level_text="Theorems: with no fault every configuration completes, data flows both ways and no deadline expires before completion; every script of at most two lost / duplicated / delayed datagrams "
+               "(any datagram index, delays 30/150/450/1200 ms) and of at most three (delays 150 ms), in all 8 configurations (full / abbreviated, client authentication, both orders of simultaneous expiry), "
+               "ends with both endpoints complete, ping and pong delivered, within one retransmission timeout of the schedule per fault plus the injected delays; for every script of any length and any "
+               "number of steps: no application data before completion, completion only after the peer's Finished was handed over, timeouts only take schedule values.  The model is tied to the code by "
+               "exact equality of full event traces on every fault-free run, every single fault on the first six datagrams of either side (both tie orders), sampled (thorough: all) double and sampled triple faults.",
+    level_note="Trusted: Coq kernel + vm_compute; the hand-written model (tied by trace equality: any change in what is sent when, in record numbering, in timer handling shows up as a mismatch); "
+               "harness/internal/tk/vnet.go, whose scheduling discipline (zero latency, one datagram per step, time advances only at quiescence, serialised simultaneous expiries) the model mirrors: the "
+               "theorems are about runs under that discipline; real networks with latency comparable to the timeouts are outside.  Agreement of negotiated parameters is checked on the implementation's "
+               "results (spec code 3), not a theorem of this model (C01, C03).  Nine DTLCP defects found with this machinery are fixed (known_findings.json: K1, F12, F21-F27); reverting any of them is detected "
+               "(627c7bd alone is masked by 1e457f3).",
     code_names={1: "fault-free-handshake-needed-a-retransmission-timeout", 2: "endpoint-did-not-complete", 3: "completed-but-disagree", 4: "application-data-did-not-flow-both-ways",
                 5: "completed-later-than-the-retransmission-schedule-allows", 6: "application-data-before-completion", "hang": "hang"},
-    assumptions=["timeouts exceed the network latency (zero-latency virtual network)"],
-    trusted=["harness/internal/tk/vnet.go (virtual-time network and its event log)"],
+    assumptions=["the network is the virtual-time network of the harness (zero latency, reliable once the scripted faults are used up); retransmission timeouts 100 ms doubling to 1600 ms; "
+                 "the application keeps reading (the dwell-period retransmissions happen inside Read): the client pings up to 8 times every 400 ms, the server leaves after 5 idle reads"],
+    trusted=["harness/internal/tk/vnet.go (virtual-time network and its event log)", "the record classifier of the harness (cmd/hx/c19.go c19Records)"],
 )
